@@ -201,6 +201,12 @@ func runHistory(h []int) (f *fail, procs int, steps int) {
 						ge, _, _ := strings.Cut(got, "\ntrees after the failed run:\n")
 						if we == ge {
 							fp = "trees-after-failed-run-differ"
+							if lateRevision(h[:step+1]) {
+								// the errors agree; what can be read after the failed run rests on
+								// bindings an earlier run left (recorded finding): not compared
+								processedOnce = true
+								continue
+							}
 						}
 					}
 					if lateRevision(h[:step+1]) && maskTypes(got) == maskTypes(want) {
